@@ -718,7 +718,7 @@ Proof.
   - rewrite HG, (lookup_app_none _ _ _ Hf). cbn [lookup]. destruct ke as [k e]. cbn [fst snd]. now rewrite text_eqb_refl.
   - assert (Hlen : len (x_decls 0 l1) = len l1).
     { clear. generalize 0. induction l1 as [|d l IH]; intros o; [reflexivity|]. cbn [x_decls length]. now rewrite IH. }
-    rewrite <- Hlen. apply (chain_all occs (find_predefined p G Hwt s_int RTypeDecl int_initialized (or_introl eq_refl))
+    rewrite <- Hlen. apply (chain_all occs
                               _ _ _ H1 0 (chain_init occs (find_predefined p G Hwt s_int RTypeDecl int_initialized (or_introl eq_refl)))).
     intros td off Hin name Hname.
     assert (Hin' : In (GType td, off) (x_decls 0 (a_decls p))).
@@ -728,7 +728,7 @@ Proof.
     cbn [x_decl] in Hg. injection Hg as ->. cbn [td_name] in Hname. injection Hname as <-.
     cbn [id_val x_ident td_ty]. eexists. split; [exact (find_type_decl p G Hwt _ _ _ _ _ _ _ _ Hds) | reflexivity].
   - unfold occs. rewrite (occurrences_split p _ _ _ H), !app_length.
-    pose proof (occs_count l1 0).
+    pose proof (occs_count l1 0) as Hc. fold D.
     assert (1 <= len (occs_of_decl (x_decl dd, D))); [|lia].
     destruct dd; cbn [occs_of_decl x_decl fst snd td_name pd_name opt_list mk_occs map app length]; lia.
 Qed.
